@@ -1,6 +1,7 @@
 package activitypub
 
 import (
+	"bytes"
 	"encoding/json"
 	"fmt"
 	"time"
@@ -64,8 +65,17 @@ func JSONWriteNaturalLanguageProp(b *[]byte, n string, nl NaturalLanguageValues)
 	return false
 }
 
+// jsonWriteEscapedString appends s to b as a JSON string, escaping everything the JSON grammar requires to be escaped
+func jsonWriteEscapedString(b *[]byte, s string) {
+	buf := bytes.Buffer{}
+	stringBytes(&buf, []byte(s), false)
+	*b = append(*b, buf.Bytes()...)
+}
+
 func JSONWriteStringProp(b *[]byte, n string, s string) (notEmpty bool) {
-	return JSONWriteProp(b, n, []byte(fmt.Sprintf(`"%s"`, s)))
+	var v []byte
+	jsonWriteEscapedString(&v, s)
+	return JSONWriteProp(b, n, v)
 }
 
 func JSONWriteBoolProp(b *[]byte, n string, t bool) (notEmpty bool) {
